@@ -1,5 +1,6 @@
 """C04 — FBA returns a true optimum, or a true verdict that none exists."""
 from contracts import c04_status, c15_dictlist, c01_lp, c04_solution as CS  # noqa
+from contracts import c04_accessors as CA  # noqa
 from props._generic import run_property, replay_with_driver
 
 LEVEL = "other"
@@ -22,7 +23,17 @@ def lemmas():
 
 
 def run(rep):
-    run_property(rep, KEYS, hooks=CS.HOOKS, lemmas=lemmas, explanation=(
+    run_property(rep, KEYS, hooks=CS.HOOKS, lemmas=lemmas, more=[(["Reaction.reverse_id@getter"], c01_lp.GETTER_HOOKS), (CA.KEYS, CA.HOOKS)], explanation=(
+        "Reaction.reverse_id (an assumed contract until round 5) is proved against its body: '_'.join((id, 'reverse', "
+        "md5(id utf-8).hexdigest()[0:5])) of the CURRENT id, the documented shape (md5 / join uninterpreted). "
+        "The per-object accessors Reaction.flux, Reaction.reduced_cost and Metabolite.shadow_price are proved against their bodies for "
+        "every status on which documentation and code agree: RuntimeError for an object without a model; for status optimal the value "
+        "primal(forward) - primal(reverse) / dual(forward variable) / dual(the row registered under the metabolite's id); "
+        "OptimizationError (flux, reduced_cost) for a status that is neither optimal nor one with primals; nothing written. Stated "
+        "precondition = the inputs where they DISAGREE (three findings, see contracts/c04_accessors.py): status None raises "
+        "OptimizationError instead of the documented RuntimeError; a has-primals status (e.g. infeasible) only warns and returns the "
+        "stale number instead of raising OptimizationError; shadow_price turns every raising status into a TypeError "
+        "(err.with_traceback() without argument). "
         "Deductive (cobrapy's own part): slim_optimize is proved to return the objective value exactly when the status is optimal and "
         "otherwise the caller's error value, or - with error_value=None - to raise the exception class OPTLANG_TO_EXCEPTIONS_DICT "
         "assigns to the status; check_solver_status and assert_optimal are proved against their decision tables; Model.optimize is "
@@ -33,6 +44,8 @@ def run(rep):
         "reduced-cost identity from the assumed KKT contract of the solver. That GLPK's optimal is a true optimum and that its duals "
         "certify it is NOT proved: bounded driver against an exact rational LP oracle with duality certificate on generated models."),
         trusted=["optlang/GLPK optimize() (assumed contract, monitored by the bounded tier)",
+                 "hashlib.md5(..).hexdigest()[0:5] and str.join as uninterpreted functions of their string arguments (reverse_id)",
+                 "optlang variable.primal / .dual, constraint.dual read a finite number (heap fields, no exception modelled); solver.status is None or a string; model.constraints[name] (ConContainer.__getitem__, assumed); the solver-in-step axiom of the proved forward_variable / reverse_variable getters",
                  "get_solution raising behaviour as seen by optimize (follows check_solver_status, which is proved)"])
 
 
